@@ -549,6 +549,33 @@ func buildRequests(liveAck, staleAck, foreignAck string) []c16req {
 		_, err := P(cc).DetachSubscription(ctx, &pubsubpb.DetachSubscriptionRequest{Subscription: "projects/p/subscriptions/s0"})
 		return err
 	})
+	// the call's deadline is part of the request too: a waiting Pull (and a stream, and an
+	// Acknowledge) given only a few milliseconds is answered with DEADLINE_EXCEEDED or its
+	// result - and the server lives on
+	for _, n := range []string{"projects/p/subscriptions/s1", "projects/p/subscriptions/unknown"} {
+		n := n
+		for _, dl := range []time.Duration{time.Millisecond, 40 * time.Millisecond, 300 * time.Millisecond, 900 * time.Millisecond} {
+			dl := dl
+			add("Pull", fmt.Sprintf("sub=%q waiting, call deadline %v", n, dl), func(ctx context.Context, cc *grpc.ClientConn) error {
+				ctx, cancel := context.WithTimeout(ctx, dl)
+				defer cancel()
+				_, err := S(cc).Pull(ctx, &pubsubpb.PullRequest{Subscription: n, MaxMessages: 1})
+				if status.Code(err) == codes.DeadlineExceeded {
+					return nil // that IS the answer
+				}
+				return err
+			})
+			add("Acknowledge", fmt.Sprintf("sub=%q ids=unknown, call deadline %v", n, dl), func(ctx context.Context, cc *grpc.ClientConn) error {
+				ctx, cancel := context.WithTimeout(ctx, dl)
+				defer cancel()
+				_, err := S(cc).Acknowledge(ctx, &pubsubpb.AcknowledgeRequest{Subscription: n, AckIds: []string{uuid.New().String()}})
+				if status.Code(err) == codes.DeadlineExceeded {
+					return nil
+				}
+				return err
+			})
+		}
+	}
 	_ = proto.Marshal
 	return rs
 }
